@@ -2,9 +2,9 @@ package main
 
 import (
 	"fmt"
-	"path/filepath"
 	"go/token"
 	"go/types"
+	"path/filepath"
 	"strings"
 )
 
@@ -168,6 +168,14 @@ func (ex *Exec) intrinsic(fr *Frame, st *State, key string, args []Val, sig *typ
 		a, b := strArg(args, 0), strArg(args, 1)
 		if a != nil && b != nil {
 			return one(app(SBool, "str.suffixof", b, a))
+		}
+	case "(time.Duration).Milliseconds", "(time.Duration).Microseconds", "(time.Duration).Nanoseconds":
+		// integer division of the nanosecond count (source of package time), truncated toward zero like Go's /
+		if d, ok := args[0].(*Term); ok && isBV(d.Sort) {
+			div := map[string]int64{"(time.Duration).Milliseconds": 1000000, "(time.Duration).Microseconds": 1000, "(time.Duration).Nanoseconds": 1}[key]
+			r := app(d.Sort, "bvsdiv", d, BVInt(div, 64, true))
+			r.Signed = true
+			return one(ex.define("ms", r))
 		}
 	case "strings.TrimSuffix":
 		a, b := strArg(args, 0), strArg(args, 1)
